@@ -1,4 +1,5 @@
 import JugModel.Model.Exec
+import JugModel.Model.ExecScan
 import JugModel.Driver.Util
 open Lean
 namespace Jug.Drv
@@ -56,25 +57,33 @@ def handleExec (op : String) (j : Json) : Option Json :=
     let s0 : Sys String := { res := fun t => (res0.getD t none), lock := fun _ => .free, wk := fun _ => .idle,
                              failures := fun _ => false, runs := fun _ => 0 }
     let evs := (getArr j "events").toList
-    let rec go (s : Sys String) (i : Nat) : List Json → Except (Nat × String) (Sys String)
-      | [] => .ok s
+    -- the scan obligation of `C01.exec_complete` (dependencies as the code reports them, if given)
+    let sdepsA := (getArr j "sdeps").map (fun d => match d with
+      | .arr a => a.toList.filterMap (fun x => (fromJson? x : Except String Nat).toOption)
+      | _ => [])
+    let sdeps : Task → List Task := fun t => if sdepsA.size = 0 then deps.getD t [] else sdepsA.getD t []
+    let rec go (s : Sys String) (sc : Scan) (bad : Option Nat) (i : Nat) : List Json → Except (Nat × String) (Sys String × Option Nat)
+      | [] => .ok (s, bad)
       | je :: rest =>
         match parseEv je with
         | none => .error (i, "unparsable event")
         | some e =>
           match accept P fl s e with
-          | some s' => go s' (i + 1) rest
+          | some s' =>
+            let bad' := if bad.isNone && !(scanGuard n sc e) then some i else bad
+            go s' (scanStep sdeps sc e) bad' (i + 1) rest
           | none =>
             let w := (evWorkerD e)
             .error (i, s!"rejected in worker state {wkName (s.wk w)}")
-    match go s0 0 evs with
+    match go s0 Scan.init none 0 evs with
     | .error (i, why) => some <| Json.mkObj [("ok", Json.bool false), ("at", toJson i), ("why", Json.str why), ("event", evs.getD i .null)]
-    | .ok s =>
+    | .ok (s, bad) =>
       let ts := List.range n
       some <| Json.mkObj [("ok", Json.bool true),
         ("res", jList (fun t => jOpt Json.str (s.res t)) ts),
         ("locks", jList (fun t => lockToJson (s.lock t)) ts),
         ("runs", jList (fun t => jNat (s.runs t)) ts),
+        ("scanViolatedAt", jOpt jNat bad),
         ("workers", jList (fun w => Json.str (wkName (s.wk w))) (List.range flags.size))]
   | _ => none
 where
